@@ -7,7 +7,7 @@ worktrees live under /tmp and are removed at the end.
 
 usage: tools/seedrerun.py [--jobs N] [--only C13-2,C05-8] [--write]
   --write   record the result as "outcome_final" in seeded/<id>-<n>/meta.json
-A seed whose notes say it needs the thorough tier is run in the thorough tier.
+A seed whose note in seeded/notes.json says "(thorough only" is run in the thorough tier.
 """
 import argparse, concurrent.futures, json, os, queue, re, subprocess, sys, time
 
@@ -67,7 +67,7 @@ def main():
                 note = notes.get(seed) or ""
                 if isinstance(note, dict):
                     note = json.dumps(note)
-                tier = "thorough" if "thorough" in note else "quick"
+                tier = "thorough" if "(thorough only" in note else "quick"
                 patch = os.path.join(sdir, seed, "patch.diff")
                 sh("git checkout -q -- . ; git clean -fdq", cwd=rw)
                 if sh(["git", "apply", patch], cwd=rw).returncode != 0:
